@@ -1,0 +1,4 @@
+// Package verifmq re-exports the verification hooks of the internal message queue
+// (bitswap/client/internal/messagequeue) for out-of-tree verification harnesses.
+// It is empty unless built with -tags verif.
+package verifmq
